@@ -50,6 +50,8 @@ func (c *Module) Connect(conn *sqlite.Conn, args []string,
 
 	err = declare(table.SchemaString)
 	if err != nil {
+		// the table must not stay registered (and open) under its name
+		_ = table.Disconnect()
 		return nil, fmt.Errorf("declare: %w", err)
 	}
 
